@@ -16,12 +16,17 @@ from vtlengine.AST.DAG._models import DatasetSchedule  # noqa: E402
 
 
 class Fault(Exception):
-    pass
+    """a failure that is NOT a database error (a Python-level error of the configuration code, e.g. an invalid setting)"""
+
+
+class DuckErr(Exception):
+    """stands for duckdb.Error (the stub module's Error class)"""
 
 
 class World:
-    def __init__(self, k):
+    def __init__(self, k, kind=0):
         self.k = k
+        self.kind = kind
         self.n = 0
         self.log = []
 
@@ -31,7 +36,7 @@ class World:
         self.n += 1
         if i == self.k:
             self.log.append(("fault", what))
-            raise Fault(what)
+            raise (DuckErr(what) if self.kind == 0 else Fault(what))
         self.log.append(what if isinstance(what, tuple) else (what,))
 
 
@@ -69,8 +74,8 @@ class FakePath:
         return self.p
 
 
-def run_once(k, in_memory, n_statements):
-    w = World(k)
+def run_once(k, in_memory, n_statements, kind=0):
+    w = World(k, kind)
     FakePath._w = w
     saved = {}
 
@@ -79,7 +84,7 @@ def run_once(k, in_memory, n_statements):
         setattr(mod, name, val)
 
     class FakeDuck:
-        Error = Exception
+        Error = DuckErr
 
         @staticmethod
         def connect(db, config=None):
@@ -126,7 +131,7 @@ def run_once(k, in_memory, n_statements):
             EX.execute_queries(conn=conn, queries=[(n, "SELECT 1", n == names[-1]) for n in names], ds_analysis=sched, path_dict=None,
                                dataframe_dict={"G": 1}, input_datasets={"G": DS()}, output_datasets={}, output_scalars={},
                                output_folder=None, return_only_persistent=True)
-    except Fault:
+    except (Fault, DuckErr):
         failed = True
     finally:
         for (mod, name), v in saved.items():
@@ -151,8 +156,9 @@ def leaks(w):
     return out
 
 
-def check(k, in_memory, n_statements):
-    w, failed = run_once(k, in_memory, n_statements)
+def check(k, in_memory, n_statements, kind=0):
+    """kind 0: the failing call raises the database's error class; kind 1: it raises another Python exception"""
+    w, failed = run_once(k, in_memory, n_statements, 0 if kind == 0 else 1)
     if k >= 0 and k < w.n and not failed:
         return False    # an injected fault was swallowed: run() must raise
     return not leaks(w)
@@ -173,6 +179,7 @@ def warm_light():
     for im in (True, False):
         check(-1, im, 2)
         check(3, im, 2)
+        check(3, im, 2, 1)
 
 
 if __name__ == "__main__":
